@@ -74,15 +74,20 @@ def has_dup_pair(trip):
     return any(d == 0 for _, _, d in trip)
 
 
-def shrink_list(items, fails, max_steps=400):
-    """Greedy delta debugging: drop elements while `fails(items)` stays true."""
+def shrink_list(items, fails, max_steps=400, budget=None):
+    """Greedy delta debugging: drop elements while `fails(items)` stays true.  Stops after `budget` seconds (PV_SHRINK_BUDGET, default
+    120): a shrunk replay is a convenience, the verdict does not wait for it (one candidate of 30 000 sequences can take minutes)."""
+    import os, time
+    if budget is None:
+        budget = float(os.environ.get('PV_SHRINK_BUDGET', '120'))
+    deadline = time.time() + budget
     items = list(items)
     steps = 0
     chunk = max(1, len(items) // 2)
-    while chunk >= 1 and steps < max_steps:
+    while chunk >= 1 and steps < max_steps and time.time() < deadline:
         i = 0
         progressed = False
-        while i < len(items) and steps < max_steps:
+        while i < len(items) and steps < max_steps and time.time() < deadline:
             cand = items[:i] + items[i + chunk:]
             steps += 1
             if cand and _safe(fails, cand):
